@@ -5,7 +5,7 @@ from .util import call
 
 ID = 'C05'
 LEAN_MODULE = 'KernProofs.C05'
-THEOREMS = []
+THEOREMS = ['KM.C05.C05_decorations', 'KM.C05.C05_pitch_duration', 'KM.C05.C05_note_text', 'KM.C05.C05_listener_tokens_ordered', 'KM.C05.C05_placeholder', 'KM.C05.C05_placeholder_text', 'KM.C05.C05_selected', 'KM.C05.C05_identity', 'KM.C05.C05_selected_set', 'KM.C05.C05_null_rows_dropped', 'KM.mergeSort_decLe_filter', 'KM.mergeSort_pdLe_filter']
 FINGERPRINTS = ['exporter.Exporter.export_string', 'exporter.Exporter.append_row', 'exporter.Exporter._retrieve_empty_token',
                 'tokens.NoteRestToken.export', 'tokens.ChordToken.export', 'generic.Generic', 'tokens.TokenCategoryHierarchyMapper.valid']
 RULE = ('a fixed set of generated documents (3 quick / 8 thorough, seed-independent) x EVERY single category as include, as exclude, and EVERY '
